@@ -455,6 +455,10 @@ class X:
             if orig:
                 return V("mod", f"{src}.{orig}")
             return V("mod", src)
+        if name == "spec" and self.in_clause:
+            return V("specmod", "strfuncs")
+        if name in ("expander",) and getattr(mod, "is_spec", False):
+            return V("func", ("cb", "expander", "total_str"))
         if name in models.BUILTIN_NAMES:
             return V("func", ("builtin", name))
         if name in models.BUILTIN_TYPES:
@@ -1159,7 +1163,9 @@ class X:
         cond = z3.simplify(cond)
         if z3.is_true(cond):
             return cont(st)
-        if self.mode == "frame":
+        if self.mode == "frame" or self.in_clause:
+            # contract clauses / spec functions are evaluated inside their
+            # envelope: raising operations are assumed not to raise there
             return cont(st.assume(cond))
         caught = any(any(exc_matches(exc, h) for h in hs) for hs in st.handlers)
         allowed = any(exc_matches(exc, r) for r in self.c.raises)
